@@ -122,7 +122,14 @@ func zzC11_udp_nested() {
 			d, _ := m.MarshalWithEncoder(coder.DefaultCoder)
 			_ = cc.Process(nil, append([]byte(nil), d...))
 		} else {
-			_ = cc.Process(nil, zzDatagram(message.Confirmable, 100+int32(i), codes.GET, message.Token{0xC0, byte(i)}, nil))
+			mid := 100 + int32(i)
+			if i == 0 && x.nested && symChoose("peer-message-id", 2) == 1 {
+				// the peer's message ID happens to be the one this endpoint would use next: the two ID spaces are
+				// independent, the nested request must still get through
+				mid = int32(uint16(cc.msgID.Load() + 1))
+				symCover("peer-id-meets-own")
+			}
+			_ = cc.Process(nil, zzDatagram(message.Confirmable, mid, codes.GET, message.Token{0xC0, byte(i)}, nil))
 		}
 		if x.nested {
 			// the handler must get to run and send its nested request although earlier handlers still block
